@@ -85,7 +85,6 @@ func mandatoryMarshaller(input []byte) ([]byte, error) {
 	return buf.Bytes(), nil
 }
 
-// nolint:unparam
 func alpnMarshaller(input []byte) ([]byte, error) {
 	alpns := bytes.Split(input, valueDelimInternal)
 
@@ -93,6 +92,9 @@ func alpnMarshaller(input []byte) ([]byte, error) {
 	buf.Grow(len(input) + len(alpns))
 
 	for _, alpn := range alpns {
+		if len(alpn) == 0 || len(alpn) > 255 {
+			return nil, fmt.Errorf("alpn-id %q must be 1 to 255 bytes long", alpn)
+		}
 		buf.WriteByte(byte(len(alpn)))
 		buf.Write(alpn)
 	}
